@@ -60,6 +60,7 @@ fn new_run(prop: &str, tier: Tier) -> Run {
         violations: Mutex::new(Vec::new()),
         start: Instant::now(),
         only: None,
+        breadcrumbs: std::sync::atomic::AtomicBool::new(false),
     }
 }
 
